@@ -262,6 +262,24 @@ Definition SrcTie_case (c : c18_in * res c18_obs) : N :=
   end.
 """,
     },
+    "C03": {
+        "targets": ["texttable/decoration/strings.go:WithinWidthAligned"]
+                   + ["texttable/decoration/emit.go:" + f for f in (
+                       "commonTemplateLine", "LineHeaderTop", "LineHeaderBodySep", "LineBodyTop", "LineBottom",
+                       "LineSeparator", "LineHeaderBlanks", "LineBodyBlanks", "HeaderDividers", "BodyDividers",
+                       "commonRenderedLine", "HeaderLineRendered", "BodyLineRendered")],
+        "generated": "Generated/EmitSrc.v",
+        "proofs": ["Proofs/EmitSrcTie.v"],
+        "theorems": ["c03_source_is_model", "c03_source_any_eol", "c03_source_rule_line"],
+        "eval": None,     # no evaluation glue: a broken tie is recorded, the hand model and the correspondence decide
+    },
+    "C04": {
+        "targets": ["texttable/decoration/strings.go:WithinWidthAligned"],
+        "generated": "Generated/WidthStrSrc.v",
+        "proofs": ["Proofs/WidthStrSrcTie.v"],
+        "theorems": ["c04_source_is_model", "c04_source_slot"],
+        "eval": None,
+    },
 }
 SOURCE_TIES["C11"] = {
     "targets": ["error_containers.go:" + f for f in ("NewErrorContainer", "AddError", "AddErrorList", "Errors")],
@@ -373,7 +391,9 @@ def source_eval(pid, tres, outdir, stats):
     """the tie is broken but the fresh translation compiles: run IT on this run's cases
     against the implementation's observed output; returns (failing [(index, 1)], note)"""
     tie, tdir = SOURCE_TIES[pid], tres["dir"]
-    if not tie.get("eval") or not tres["compiles"]:
+    if not tie.get("eval"):
+        return [], "not evaluated (no evaluation glue for this property: the hand model and the correspondence decide)"
+    if not tres["compiles"]:
         return [], "not evaluated (the translation does not compile)"
     if tres["status"] == "identical":
         gen = os.path.join(tdir, tie["generated"])
